@@ -314,6 +314,9 @@ def _to_povm(ctx, rep):
     lv, e, node = cands[0]
     e = deep_inline(f, e)
     subs = [x for x in ast.walk(e) if isinstance(x, ast.Subscript) and isinstance(x.value, ast.Name) and x.value.id == lv]
+    if len(subs) == 1 and e is subs[0]:
+        # the bare row / column: scale factor 1
+        e = ast.BinOp(left=ast.Constant(value=1), op=ast.Mult(), right=subs[0])
     if len(subs) != 1 or not (isinstance(e, ast.BinOp) and isinstance(e.op, ast.Mult)):
         rep.undecided("O6", f, unparse(e), "element is not <scalar> * <row of the HS matrix>")
         return
